@@ -1,7 +1,7 @@
 (* C14 — per-call timeout overrides never outlive the call.
    This file contains only the property theorems (closed by [exact]), the obligations over the
    regenerated Gen_Timeouts.v (decided by computation) and Print Assumptions. *)
-From Verif Require Import TimeoutRestore TimeoutRestore_Proofs TimeoutSites.
+From Verif Require Import TimeoutRestore TimeoutRestore_Proofs TimeoutSites TimeoutOverlap TimeoutOverlap_Proofs.
 From Gen Require Import Gen_Timeouts.
 
 (* For the code as it is now (restores in finally), for EVERY sequence of calls of the operations that
@@ -88,6 +88,72 @@ Theorem C14_thread_timeout_unjoined_late_write :
 Proof. exact pool_unjoined_late_write. Qed.
 Print Assumptions C14_thread_timeout_unjoined_late_write.
 
+(* ---- calls on SEVERAL connections, interleaved (asyncio tasks, threads): timeout_modifier wraps a METHOD, one
+   wrapper for all connections.  With the saved value in a local of the wrapper CALL (SlotLocal; read from the
+   source: C14_saved_value_is_a_local_of_the_call), for EVERY number of connections and EVERY schedule that
+   interleaves their calls, at EVERY moment of the run a connection that is not inside a call has ITS OWN
+   timeouts (in particular when its call has just ended, and when all calls have ended) *)
+Theorem C14_overlapping_calls_restore_each_connection :
+  forall (l : list ev) (c0 : nat -> st) (w' : world),
+    run SlotLocal l (world0 c0) = Some w' -> forall i, idle w' i -> core (w_conn w' i) = core (c0 i).
+Proof. exact interleaving_preserves_restore. Qed.
+Print Assumptions C14_overlapping_calls_restore_each_connection.
+
+(* the connections' automata have disjoint state: what connection i goes through in the interleaved run is what it
+   goes through when its own events run alone *)
+Theorem C14_interleaving_is_a_product :
+  forall (l : list ev) (c0 : nat -> st) (w' : world) (i : nat),
+    run SlotLocal l (world0 c0) = Some w' ->
+    exists w'', run SlotLocal (on i l) (world0 c0) = Some w''
+                /\ w_conn w'' i = w_conn w' i /\ w_frame w'' i = w_frame w' i.
+Proof. exact interleaving_is_a_product. Qed.
+Print Assumptions C14_interleaving_is_a_product.
+
+(* while a call is in flight its connection's I/O sees ITS override, whatever the other connections do meanwhile *)
+Theorem C14_own_override_in_effect_during_overlap :
+  forall k w i v w1 l w2 p,
+    step k w (EvEnter i (OvVal v)) = Some w1 -> v <> ops (w_conn w i) ->
+    Forall (fun e => ev_conn e <> i) l -> run k l w1 = Some w2 ->
+    exists w3, step k w2 (EvIo i p) = Some w3
+               /\ hd_error (log (w_conn w3 i)) = Some (p, (v, tr (w_conn w i), sess (w_conn w i))).
+Proof. exact own_override_in_effect. Qed.
+Print Assumptions C14_own_override_in_effect_during_overlap.
+
+(* a slot shared between the connections (a nonlocal of the decorator, a module / class attribute) is refuted: two
+   connections configured with 10 s and 60 s, nested or staggered calls: the call that started first ends with the
+   OTHER connection's 60 s - although the same events of that connection alone restore its 10 s *)
+Theorem C14_shared_slot_refuted : ~ C14_overlap_full SlotShared.
+Proof. exact shared_slot_refutes_full. Qed.
+Print Assumptions C14_shared_slot_refuted.
+
+Theorem C14_shared_slot_witnesses :
+  final_ops SlotShared nested_schedule (two conn_a conn_b) 0 = Some (true, 60000)
+  /\ final_ops SlotShared nested_schedule (two conn_a conn_b) 1 = Some (true, 60000)
+  /\ final_ops SlotShared staggered_schedule (two conn_a conn_b) 0 = Some (true, 60000).
+Proof. exact shared_slot_refuted. Qed.
+Print Assumptions C14_shared_slot_witnesses.
+
+Theorem C14_shared_slot_is_not_a_product :
+  final_ops SlotShared (on 0 nested_schedule) (two conn_a conn_b) 0 = Some (true, 10000)
+  /\ final_ops SlotShared nested_schedule (two conn_a conn_b) 0 = Some (true, 60000).
+Proof. exact shared_slot_not_a_product. Qed.
+Print Assumptions C14_shared_slot_is_not_a_product.
+
+(* ... and it cannot be seen without overlap: a call nobody interleaves with restores with either slot; such a call
+   is TimeoutRestore's with_override *)
+Theorem C14_without_overlap_either_slot_restores :
+  forall k i o n w, o <> OvBad -> idle w i ->
+    exists w', run k (call_events i o n) w = Some w' /\ idle w' i /\ core (w_conn w' i) = core (w_conn w i).
+Proof. exact shared_slot_sequential_restores. Qed.
+Print Assumptions C14_without_overlap_either_slot_restores.
+
+Theorem C14_single_call_is_with_override :
+  forall k o n c0 i, o <> OvBad ->
+    exists w', run k (call_events i o n) (world0 c0) = Some w'
+               /\ core (w_conn w' i) = core (fst (with_override o (fun s => (ticks PhIo n s, Ok)) (c0 i))).
+Proof. exact single_call_is_with_override. Qed.
+Print Assumptions C14_single_call_is_with_override.
+
 (* the code of the pinned commit (restore after the loop / on match / on ScrapliTimeout only) *)
 Theorem C14_pinned_refuted : forall hs, ~ C14_full (cfg_pinned hs).
 Proof. exact pinned_refuted. Qed.
@@ -118,6 +184,21 @@ Theorem C14_every_swap_restores_in_finally :
   map fst gen_swap_sites = swap_site_names /\ forallb site_ok gen_swap_sites = true.
 Proof. split; vm_compute; reflexivity. Qed.
 Print Assumptions C14_every_swap_restores_in_finally.
+
+(* [SlotLocal] is what the source says: at each of the six swaps the value put back is a local of the function's own
+   frame - bound there, once, from the timeout attribute, not nonlocal / global - and nothing is restored from a
+   closure, module, class or instance slot *)
+Theorem C14_saved_value_is_a_local_of_the_call :
+  map fst gen_saved_in_frame = swap_site_names /\ forallb save_ok gen_saved_in_frame = true /\ gen_saved_local = true.
+Proof. repeat split; vm_compute; reflexivity. Qed.
+Print Assumptions C14_saved_value_is_a_local_of_the_call.
+
+(* ... hence, for the source as it is: *)
+Theorem C14_overlapping_calls_restore_as_the_source_is :
+  forall (l : list ev) (c0 : nat -> st) (w' : world),
+    run (slot_of gen_saved_local) l (world0 c0) = Some w' -> forall i, idle w' i -> core (w_conn w' i) = core (c0 i).
+Proof. exact interleaving_preserves_restore. Qed.
+Print Assumptions C14_overlapping_calls_restore_as_the_source_is.
 
 (* defaults: no override unless asked for; the default read_timeout / next_timeout are negative, i.e.
    leave the transport timeout alone (negative_read_timeout_is_neutral); read_duration defaults to 2.5 s *)
